@@ -793,6 +793,11 @@ func (u *UpServer) handle(b []byte, proto string, conn int, qc qctx, reply func(
 					r.Q, r.An = nil, nil
 				}
 				b = refdns.Pack(r, refdns.PackOpts{})
+				if len(b) > 1232 {
+					// (half of a many-KiB answer is no datagram a server would send)
+					r.An = nil
+					b = refdns.Pack(r, refdns.PackOpts{})
+				}
 				logReply("tc", ser, key, len(b))
 				s.Fault("up_tc")
 			} else {
